@@ -672,3 +672,81 @@ mutant("gen-shallow-copy", "C19", GBUILD, "        ret = copy.deepcopy(previous)
 variant("rng-randint-parenthesised", "C19", DRND, "            return a + x % w", "            return (x % w) + a")
 variant("rng-from-import", "C19", GBUILD, "import cspuz.generator.srandom as srandom", "from cspuz.generator import srandom")
 variant("gen-hoisted-uniqueness", "C19", GCORE, "            if uniqueness(*answer):", "            is_unique = uniqueness(*answer)\n            if is_unique:")
+
+# ---- C18 ---------------------------------------------------------------------------------------
+mutant("seg-merge-count-ge", "C18", GSEG, "        if num_blocks > self.min_num_blocks:", "        if num_blocks >= self.min_num_blocks:", "SEG-G")
+mutant("seg-merge-size", "C18", GSEG, """                        if len(current[i]) + len(current[j]) > self.max_block_size:
+                            continue
+                        if i < j:
+                            adjacent_pairs.add((i, j))
+                        else:
+                            adjacent_pairs.add((j, i))
+                    if (
+                        x < width - 1""", """                        if len(current[i]) + len(current[j]) > self.max_block_size + 1:
+                            continue
+                        if i < j:
+                            adjacent_pairs.add((i, j))
+                        else:
+                            adjacent_pairs.add((j, i))
+                    if (
+                        x < width - 1""", "SEG-G")
+mutant("seg-split-count", "C18", GSEG, "        if num_blocks < self.max_num_blocks:", "        if num_blocks <= self.max_num_blocks:", "SEG-G")
+mutant("seg-split-halves", "C18", GSEG, """                        if (
+                            len(block_a) >= self.min_block_size
+                            and len(block_b) >= self.min_block_size
+                        ):""", """                        if (
+                            len(block_a) >= self.min_block_size
+                        ):""", "SEG-G")
+mutant("seg-move-donor-ge", "C18", GSEG, """                    if (
+                        len(current[i]) > self.min_block_size
+                        and len(current[j]) < self.max_block_size
+                        and _is_connected(current[i], (y, x))
+                    ):
+                        ret.append(
+                            (
+                                [i, j],
+                                [[p for p in current[i] if p != (y, x)], current[j] + [(y, x)]],
+                            )
+                        )
+                    if (
+                        len(current[j]) > self.min_block_size
+                        and len(current[i]) < self.max_block_size
+                        and _is_connected(current[j], (y + 1, x))""", """                    if (
+                        len(current[i]) >= self.min_block_size
+                        and len(current[j]) < self.max_block_size
+                        and _is_connected(current[i], (y, x))
+                    ):
+                        ret.append(
+                            (
+                                [i, j],
+                                [[p for p in current[i] if p != (y, x)], current[j] + [(y, x)]],
+                            )
+                        )
+                    if (
+                        len(current[j]) > self.min_block_size
+                        and len(current[i]) < self.max_block_size
+                        and _is_connected(current[j], (y + 1, x))""", "SEG-G")
+mutant("seg-move-wrong-cell-tested", "C18", GSEG, "                        and _is_connected(current[j], (y + 1, x))", "                        and _is_connected(current[j], (y, x))", "SEG-G")
+mutant("seg-move-wrong-cell-added", "C18", GSEG, """                                    [p for p in current[j] if p != (y, x + 1)],
+                                    current[i] + [(y, x + 1)],""", """                                    [p for p in current[j] if p != (y, x + 1)],
+                                    current[i] + [(y, x)],""", "SEG-G")
+mutant("seg-merge-drops-block", "C18", GSEG, "                ret.append(([i, j], [current[i] + current[j]]))", "                ret.append(([i, j], [current[i]]))", "SEG-E")
+mutant("seg-split-nearest-tie", "C18", GSEG, """        if da <= db:
+            block_a.append(b)
+        else:
+            block_b.append(b)""", """        if da <= db:
+            block_a.append(b)
+        if da >= db:
+            block_b.append(b)""", "SEG-E")
+mutant("seg-is-connected-always", "C18", GSEG, "    return len(visited) == len(block_set) - (1 if excluded in block_set else 0)", "    return len(visited) >= 1", "SEG-E")
+mutant("seg-copy-mutates", "C18", GSEG, """        exclude, append = update
+        if use_deepcopy:""", """        exclude, append = update
+        if len(exclude) == 2:
+            previous[exclude[0]].extend(previous[exclude[1]])
+        if use_deepcopy:""", "SEG-E")
+mutant("seg-initial-unchecked", "C18", GSEG, """            for block in blocks:
+                if not (self.min_block_size <= len(block) <= self.max_block_size):
+                    is_met = False
+            if is_met:""", """            if is_met:""", "SEG-E")
+variant("seg-swap-move-blocks", "C18", GSEG, "        if num_blocks > self.min_num_blocks:", "        if self.min_num_blocks < num_blocks:")
+variant("seg-split-ge-plus", "C18", GSEG, "        if num_blocks < self.max_num_blocks:", "        if num_blocks + 1 <= self.max_num_blocks:")
